@@ -398,6 +398,25 @@ def run_case(out, n, plabel, variant, A0, Ad, stored, sub, given, seed):
                         chk_solution(out, bad, 'enforce+solve', y, Ad, b0, x0, Iset, Dset, fname)
                     except Exception as e:
                         bad('enforce+solve', 'exception', repr(e), fname)
+        # every optional argument omitted: diag = 1, nothing overwritten, zero prescribed values
+        try:
+            A = A0.copy()
+            b = b0.copy()
+            snap = snapshot(A, b)
+            Ae, be = enforce(A, b, **kw)
+            want = Ad.astype(float).copy()
+            want[Dset] = 0
+            want[Dset, Dset] = 1.0
+            wb = b0.copy()
+            wb[Dset] = 0.0
+            if not np.array_equal(Ae.toarray(), want) or not np.array_equal(np.asarray(be), wb) or snapshot(A, b) != snap:
+                bad('enforce', 'defaults', "enforce(A, b, D) with every optional argument omitted: expected rows e_i (diag 1), rhs 0 on the "
+                    "constrained indices, operands untouched", fname)
+            Ac_, bc_, xz_, Iz_ = condense(A, b, **kw)
+            if not np.array_equal(np.asarray(xz_), np.zeros(n)) or not np.array_equal(np.asarray(bc_), b0[np.asarray(Iz_)]):
+                bad('condense', 'defaults', "condense(A, b, D) without x: prescribed values are not zero / rhs is not b[I]", fname)
+        except Exception as e:
+            bad('enforce', 'defaults-exception', repr(e), fname)
         # matrix right-hand side
         A = A0.copy()
         Mm = M0.copy()
